@@ -47,6 +47,11 @@ class CombinedDataHandler:
             indices_with_null_val = data[result_cols].isna().any(axis=1)
             data.update(data[result_cols].fillna(value=0))
             data.loc[indices_with_null_val, "percent_expected_vote"] = 0
+            # the derived results columns of these units (two party weights, normalized margin) are missing as well
+            other_result_cols = [col for col in data.columns if col.startswith("results_") and col not in result_cols]
+            data.loc[indices_with_null_val, other_result_cols] = data.loc[
+                indices_with_null_val, other_result_cols
+            ].fillna(value=0)
 
         self.n_minimum_for_outlier_detection_model = 20
         self.data = data
